@@ -72,6 +72,7 @@ Sane(s, o) ==
   /\ o.n = OVERFLOW => (o.op \in {"reserve", "extend"} /\ Len(TextOf(s, o.h)) > 0)
   /\ o.op \in {"clone_from", "compare"} => o.h # o.g
   /\ (o.op \in {"extend", "collect"} /\ o.v = "strs") => o.n = 0
+  /\ (o.op \in {"extend", "collect"} /\ o.v = "chars") => \A i \in 1..Len(o.x) : Len(o.x[i]) >= 1 /\ WidthOfLead(o.x[i][1]) = Len(o.x[i])
   /\ o.op = "display" => o.n <= Len(o.x) + 1
 
 WithPanics(o) == IF o.op \in {"extend", "collect", "display"} THEN {[o EXCEPT !.m = m] : m \in PanicPos(o.x)} ELSE {o}
@@ -91,7 +92,8 @@ Ops(s) == UNION {UNION {WithFailures(s, o2) : o2 \in WithPanics(o)} : o \in {b \
 \* room for the at most two buffers a single call may allocate before it releases one
 Roomy(s) == Cardinality({b \in B : ~s.bufs[b].live}) >= 1
 
-Call(op, res) == op @@ res @@ [shim |-> <<>>]
+\* xA: allocator requests of the call outside the buffer allocator (hidden temporaries): the design has none
+Call(op, res) == op @@ res @@ [shim |-> <<>>, xA |-> 0]
 ObsText(s, op) == IF s.hs[op.h].k = "D" THEN <<>> ELSE TextOf(s, op.h)
 
 RECURSIVE RunSeed(_, _, _)
